@@ -627,8 +627,6 @@ def compare(c, res, mvals):
             return dis
         m_hex, m_bin = mvals
         for fmt in ("HEX", "S19"):
-            if m_hex == ("e", 1):
-                continue      # no data records: load_binary_image falls back to the file's own text (third-party text, C16-F5)
             iv = impl_loaded_value(res[fmt])
             if iv != m_hex:
                 dis.append((fmt, iv, m_hex))
